@@ -291,6 +291,10 @@ func (w *world) foreignSweep(l, kind int, rng *rand.Rand) {
 		r.Eval(1) // one RPC kind exercised with a foreign cluster id (direct and through gRPC)
 		r.Distinct("foreign|" + k.name + "|" + fmt.Sprint(kind%7))
 	}
+	// streaming kinds on long-lived streams: a foreign request after valid ones
+	w.tsoSequences(l, "after-bootstrap", true)
+	w.heartbeatSequences(l, "after-bootstrap")
+	w.syncSequences(l, "after-bootstrap")
 	// streaming kinds, through gRPC only
 	pd := w.pd(l, 1)
 	hdr := &pdpb.RequestHeader{ClusterId: fid}
@@ -425,6 +429,19 @@ func (w *world) sideTraffic(l int, done chan struct{}, wg *sync.WaitGroup) {
 			}
 		}()
 	}
+	// Tso streams on which a foreign request follows valid ones, while the race runs
+	wg.Add(1)
+	go func() {
+		defer wg.Done()
+		for n := 0; n < 200; n++ {
+			w.tsoSequences(l, "during-bootstrap-race", n == 0)
+			select {
+			case <-done:
+				return
+			default:
+			}
+		}
+	}()
 	// one region heartbeat stream with a foreign id, opened while the race runs
 	wg.Add(1)
 	go func() {
